@@ -84,6 +84,14 @@ def state_vector(
             f"Invalid initial state specified: instruction={instruction}"
         )
 
+    modes = instruction.modes
+
+    if modes and len(modes) == len(occupation_numbers):
+        # the i-th occupation number belongs to the i-th listed mode
+        placed = fallback_np.zeros_like(occupation_numbers)
+        placed[modes,] = occupation_numbers
+        occupation_numbers = placed
+
     state._set_occupation_numbers(occupation_numbers)
 
     return [Branch(state=state)]
